@@ -115,7 +115,7 @@ func runC15(c *Ctx) {
 		// dialContext treats nil as an error
 		if ns := p.Fn("client/lib", "newSession"); ns != nil {
 			okNil := false
-			for _, clo := range ns.AnonFuncs {
+			for _, clo := range closuresNear(ns, 1) {
 				for _, ci := range callsIn(clo) {
 					cc, ok := ci.(*ssa.Call)
 					if !ok || calleeName(cc) != "(client/lib.SnowflakeCollector).Pop" {
@@ -356,27 +356,27 @@ func (c *Ctx) checkClientShutdown(le *LockEngine) {
 	} else {
 		c.undecided(rule, "connectLoop", "-", "anchor does not resolve")
 	}
-	// Collect tests melt first under the lock: Catch reachable only through the default edge of a polling select on melt
+	// Collect tests melt first under the lock: Catch is reachable only through the
+	// "melt did not fire" edge of a polling select on melt taken with the lock held
+	// (directly, or through a boolean helper whose result is decided by such a select)
 	if collect := p.Fn("client/lib", "(*Peers).Collect"); collect != nil {
-		okMelt := false
-		for _, op := range chanOpsIn(p, collect) {
-			if op.Dir == chRecv && op.Class == "Peers.melt" && op.Mode == "polling" && le.Held(op.Instr, CL) >= heldWrite {
-				e, ok := selectCaseEdge(op.Sel, op.State)
-				if !ok {
-					continue
-				}
-				// the melt case must not reach Catch
-				reaches := false
-				for _, ci := range callsTo(collect, "(client/lib.Tongue).Catch") {
-					if reachPath(e.To(), ci.Block(), nil) != nil {
-						reaches = true
-					}
-					// and Catch must come after the test
-					if !precedes(op.Instr, ci) {
-						reaches = true
+		notMelted := func(fn *ssa.Function) []Edge {
+			var out []Edge
+			for _, op := range chanOpsIn(p, fn) {
+				if op.Dir == chRecv && op.Class == "Peers.melt" && op.Mode == "polling" && le.Held(op.Instr, CL) >= heldWrite {
+					if e, ok := selectCaseEdge(op.Sel, op.State); ok {
+						out = append(out, Edge{From: e.From, Idx: 1 - e.Idx})
 					}
 				}
-				okMelt = !reaches
+			}
+			return out
+		}
+		edges := predEdges(collect, notMelted, 2)
+		catches := deepCalls(collect, 2, "(client/lib.Tongue).Catch")
+		okMelt := len(edges) > 0 && len(catches) > 0
+		for _, d := range catches {
+			if path := reachableWithout(collect, d.Top, edges); path != nil {
+				okMelt = false
 			}
 		}
 		c.check(okMelt, rule, "Collect tests melt under the lock before any rendezvous", p.Pos(collect.Pos()), "", "Collect can start a rendezvous although End has been called")
